@@ -8,6 +8,27 @@ from . import seqengine as S
 ROOT = build.ROOT
 
 
+RETRIES = []   # (scenario, seed, last line of the exception) of scenario runs that had to be repeated
+
+
+def robust(fn, name="scenario", tries=3):
+    """run one scenario; an exception of the machinery itself (server start, socket, model driver
+    under load) is retried; after `tries` attempts it is re-raised with its tail, so the check
+    reports it (a check that cannot run does not pass)."""
+    import traceback, time as _t
+    def g(sd):
+        last = ""
+        for k in range(tries):
+            try:
+                return fn(sd)
+            except Exception:
+                last = traceback.format_exc()
+                RETRIES.append((name, sd, last.strip().splitlines()[-1][:200]))
+                _t.sleep(0.5 + k)
+        raise RuntimeError(f"{name} seed={sd} failed {tries} times: " + last[-700:])
+    return g
+
+
 def shrink_script(lines, still_fails, budget=60):
     """delta-debug: blank out lines (numbering is preserved because other lines refer to
     line numbers) while the failure persists"""
@@ -799,7 +820,7 @@ def c13_run(ctx):
     seeds = [ctx.rnd.randrange(1, 10 ** 9) for _ in range(n_seq)]
     from concurrent.futures import ThreadPoolExecutor
     with ThreadPoolExecutor(max_workers=8) as ex:
-        results = list(ex.map(lambda sd: H.run_sequence(sd, n_req, fixed=True), seeds))
+        results = list(ex.map(robust(lambda sd: H.run_sequence(sd, n_req, fixed=True), 'http sequence'), seeds))
     kinds, statuses, n_total = {}, {}, 0
     known_500 = 0
     first_mismatch = None
@@ -889,7 +910,7 @@ def handler_run(pid, extra=None):
         seeds = [ctx.rnd.randrange(1, 10 ** 9) for _ in range(n)]
         from concurrent.futures import ThreadPoolExecutor
         with ThreadPoolExecutor(max_workers=6) as ex:
-            reps = list(ex.map(lambda sd: V.run_handler_scenario(sd, 14 if ctx.tier == "quick" else 24), seeds))
+            reps = list(ex.map(robust(lambda sd: V.run_handler_scenario(sd, 14 if ctx.tier == "quick" else 24), 'handler scenario'), seeds))
         tot = dict(instances=0, triggers=0, outputs=0, invocations=0)
         for sd, r in zip(seeds, reps):
             for k in tot:
@@ -1008,7 +1029,7 @@ def c17_run(ctx):
     seeds = [ctx.rnd.randrange(1, 10 ** 9) for _ in range(n)]
     from concurrent.futures import ThreadPoolExecutor
     with ThreadPoolExecutor(max_workers=4) as ex:
-        reps = list(ex.map(lambda sd: V.run_restart_scenario(sd, 12 if ctx.tier == "quick" else 20, kill=(sd % 3 != 0)), seeds))
+        reps = list(ex.map(robust(lambda sd: V.run_restart_scenario(sd, 12 if ctx.tier == "quick" else 20, kill=(sd % 3 != 0)), 'restart scenario'), seeds))
     n_hist = 0
     for sd, r in zip(seeds, reps):
         n_hist += r.get("n_hist", 0)
@@ -1056,7 +1077,7 @@ def svc_run(kind):
         from concurrent.futures import ThreadPoolExecutor
         fn = V.run_command_scenario if kind == "cmd" else V.run_generator_scenario
         with ThreadPoolExecutor(max_workers=6) as ex:
-            reps = list(ex.map(fn, seeds))
+            reps = list(ex.map(robust(fn, kind + ' scenario'), seeds))
         for sd, r in zip(seeds, reps):
             for v in r["violations"][:3]:
                 ctx.violation(v["what"][:700], dict(engine="V", seed=sd, scenario=kind, script=v.get("script")))
@@ -1126,7 +1147,7 @@ def c10_run(ctx):
     seeds = [ctx.rnd.randrange(1, 10 ** 9) for _ in range(n)]
     from concurrent.futures import ThreadPoolExecutor
     with ThreadPoolExecutor(max_workers=3) as ex:
-        reps = list(ex.map(V.run_cas_scenario, seeds))
+        reps = list(ex.map(robust(V.run_cas_scenario, 'cas scenario'), seeds))
     for sd, r in zip(seeds, reps):
         for v in r["violations"][:4]:
             ctx.violation(v["what"][:600], dict(engine="H/V", seed=sd, scenario="cas"))
